@@ -1,4 +1,5 @@
 import Driver.C08
+import Driver.C18
 import Driver.C15
 import Driver.C01
 open ImmuModel
@@ -7,6 +8,7 @@ namespace Driver
 
 structure State where
   c08 : C08.St := {}
+  c18 : C18.St := {}
   c15 : C15.St := {}
   c01 : C01.St := {}
 
@@ -18,6 +20,7 @@ def step (st : State) (line : String) : State × String :=
   | "c01" :: "dproof" :: rest => let (s, o) := C01.stepSt st.c01 ("dproof" :: rest); ({ st with c01 := s }, o)
   | "c01" :: rest => (st, C01.step rest)
   | "c15" :: rest => let (s, o) := C15.step st.c15 rest; ({ st with c15 := s }, o)
+  | "c18" :: rest => let (s, o) := C18.step st.c18 rest; ({ st with c18 := s }, o)
   | ["sha", h] => (st, match Bytes.ofHex h with | some b => Bytes.toHex (Sha256.sum b) | none => "bad-op")
   | _ => (st, "bad-op")
 
